@@ -55,8 +55,10 @@ def ckParseLine (line : Bytes) : Except Nat Nat :=
         if k = n - 2 then true
         else
           let rest := (line.drop k).dropWhile fun b => b = sp || b = ht
+          -- CR (only directly before the LF) or a chunk extension without control characters
           match rest.head? with
-          | some b => b = cr || b = 59
+          | some b => (b = cr || b = 59) &&
+                      (rest.take (rest.length - 2)).all fun c => !((c < 32 && c ≠ ht) || c = 127)
           | none => false
       if !ok then .error 400
       else if n ≥ 1024 then .error 400
